@@ -607,6 +607,12 @@ def run(ctx: Context) -> None:
             n_hb += 1
             ctx.add("R1", k_, i.ok, i.where, i.detail)
     ctx.floor("R1", "own-heartbeat obligations", n_hb, 2)
+    # ... and every runner computes the list with the same notion of "active": the timeout reaches the cut-off in seconds
+    sub4u = Context("C04", repo, ctx.tier, ctx.seed)
+    sub4u._resolver = ctx._resolver
+    c04.r8(sub4u)
+    for i in sub4u.instances:
+        ctx.add("R1", i.key.split("/", 2)[2], i.ok, i.where, i.detail)
 
     # ---- fold can_run_atomic_service
     paths = it.block(target.node.body, [Path(env=env)])
